@@ -1,4 +1,5 @@
 """C08 — rayon: result independent of thread count and schedule (clauses, cfg x86-rayon)."""
+import re
 from ..engines import index_rules, witness
 from ..engines.validators import subst
 from ..facts import CheckError
@@ -169,7 +170,27 @@ def axis(rep, prog, rule):
             rep.bad(rule, key + "|method", wrong[0].at, "%s calls %s" % (name, wrong[0].method))
             continue
         if len(calls) != nimg:
-            rep.unk(rule, key, f.loc, "%d split calls" % len(calls))
+            # bands of one image built by hand: the proportional boundary floor(i * total / n)
+            # is a known-wrong replacement for the splits' own distribution (they give the
+            # remainder total % n to the first bands: start_i = i * (total / n) + min(i, total % n))
+            prop = None
+            for g in f.closures():
+                gs = Sym(g)
+                for c in g.calls():
+                    if not re.search(r"::(from_ref|new)$", c.name):
+                        continue
+                    for a in c.args:
+                        s = fmt(gs.operand(a, (c.bb, "term")))
+                        if re.search(r"\bMul\b.*\bDiv\b", s) and "Add" in s:
+                            prop = (c, s)
+            if prop is not None and nimg == 2 and len(calls) == 1:
+                rep.bad(rule, key + "|hand-made-bands", prop[0].at, "%s splits only one image with "
+                        "split_by_* and places the bands of the other at %s: the splits hand the "
+                        "remainder total %% n to the first bands (start_i = i*(total/n) + min(i, "
+                        "total %% n)), so from the second band on source and destination bands no "
+                        "longer correspond when total %% n != 0" % (name, prop[1][:120]))
+            else:
+                rep.unk(rule, key, f.loc, "%d split calls" % len(calls))
             continue
         if nimg == 2:
             src = [c for c in calls if not c.method.endswith("_mut")]
